@@ -187,10 +187,16 @@ func (tb *TB) BoolVar(name string) *Term {
 }
 
 func (tb *TB) un(k Kind, w uint8, a *Term, lo, hi uint64) *Term {
+	if lo == hi {
+		return tb.Const(w, lo)
+	}
 	return tb.mk(&Term{K: k, S: SInt, W: w, A: a, Lo: lo, Hi: hi})
 }
 
 func (tb *TB) bin(k Kind, a, b *Term, lo, hi uint64) *Term {
+	if lo == hi {
+		return tb.Const(a.W, lo)
+	}
 	return tb.mk(&Term{K: k, S: SInt, W: a.W, A: a, B: b, Lo: lo, Hi: hi})
 }
 
@@ -605,6 +611,18 @@ func (tb *TB) ZExt(a *Term, w uint8) *Term {
 	}
 	if a.IsConst() {
 		return tb.Const(w, a.V)
+	}
+	// zext(trunc(x)) where the truncation lost nothing
+	if a.K == KTrunc && a.A.Hi <= mask(a.W) {
+		x := a.A
+		switch {
+		case x.W == w:
+			return x
+		case x.W > w:
+			return tb.Trunc(x, w)
+		default:
+			return tb.ZExt(x, w)
+		}
 	}
 	return tb.un(KZExt, w, a, a.Lo, a.Hi)
 }
